@@ -188,38 +188,65 @@ theorem C03_debug_asserts_unreachable (data : Bytes) :
 example : Reach (init [0x82, 0x2d, 0x11, 0x11]) ⟨[.token 0x2d82, .token 0x1111], 0, .objectToArray, []⟩ :=
   ⟨2, rfl⟩
 
-/-- **What the tape leaves out, exactly and with its context — for every accepted byte string, the quirk
-included.**  `Moves [] L (flat T) odds` (Spec/BinTapeLex.lean): starting from the empty tape, reading the lexeme
-list `L` of the input, the lexeme content of the tape evolves into `flat T` by a sequence of `Move`s, one per
-loop iteration, and there are only four:
-* `keep`       — all lexemes read are appended to the tape content;
-* `eqAfterKey` — one `=` is read and not recorded, and the tape content ends with a scalar lexeme `tok k`
-                 (the key it follows): an `=` is dropped ONLY directly behind a key;
-* `ghost`      — an adjacent `{ }` pair is read and not recorded;
-* `rewrite`    — (only_empties, tape.rs:600-616) one `=` is read and not recorded while the tape content ends
-                 with `{`, `n ≥ 1` empty containers `{ }`, at most one further tape token (`odd`, the token
-                 `chunks_exact(2)` overlooks), and the token `last`; the empty containers and `odd` are removed.
-`odds` lists the `odd` chunk of every `rewrite`, so its length is the number of rewritten containers.  A tape
-that silently dropped any other lexeme is NOT explained by any run of moves (non-instance below). -/
+/-- **What the tape leaves out, with its context — for every accepted byte string, the quirk included.**
+`Moves false [] L (flat T) odds` (Spec/BinTapeLex.lean): starting from the empty tape with no value owed, reading
+the lexeme list `L` of the input, the lexeme content of the tape evolves into `flat T` by a sequence of
+`Move p A L1 B o q`s, one per loop iteration (`p`/`q`: is a value owed — has an `=` just been dropped — before /
+after the move), and there are only four:
+* `keep`       — all lexemes read (at least one) are appended to the tape content; the ONLY move possible while
+                 a value is owed, so whatever follows a dropped `=` is recorded (an empty container in value
+                 position is never taken for a ghost);
+* `eqAfterKey` — no value owed; one `=` is read and not recorded, and the tape content ends with a key lexeme
+                 `tok k`, `k.isKey` (a scalar or id — not `{`, `}`, `=`, not an rgb block); a value is owed next;
+* `ghost`      — no value owed; an adjacent `{ }` pair is read and not recorded;
+* `rewrite`    — (only_empties, tape.rs:600-616) no value owed; one `=` is read and not recorded while the tape
+                 content ends with `{`, `n ≥ 1` empty containers `{ }`, at most one further tape token (`odd`,
+                 the token `chunks_exact(2)` overlooks: a scalar, an id or an rgb block, `isVal` — never `{`,
+                 `}` or `=`), and the KEY token `last`; the empty containers and `odd` are removed; a value is
+                 owed next.
+`odds` lists the `odd` chunk of every `rewrite`, so its length is the number of rewritten containers.
+
+EXACT in: which lexemes can be dropped, what must stand before them on the tape, what `last` and `odd` are,
+that nothing is dropped while a value is owed.  UPPER BOUND in (the lexeme content of a tape does not show these,
+see `Move`): `eqAfterKey` / `ghost` are allowed wherever no value is owed (the parser does them only in key
+position of an object or the root — states `KeyValueSeparator`/`OpenSecond`, resp. `Key` — not in an array and
+not behind a `MixedContainer` marker).  The non-instances below (the reviewer's four among them) show what IS
+refuted. -/
 theorem C03_dropped_lexemes (opt : Bool) (data : Bytes) (T : Tape) (h : parse opt data = .ok T)
-    (L : List Lx) (hL : Lexes data L) : ∃ odds, Moves [] L (flat T) odds :=
+    (L : List Lx) (hL : Lexes data L) : ∃ odds, Moves false [] L (flat T) odds :=
   parse_moves opt data T h L hL
 
 /-- **No scalar / id lexeme is dropped, except at most one tape token per only_empties-rewritten container.**
 As multisets, the scalar / id lexemes of the input are those of the tape plus those of the `odd` chunks; there
-is one chunk per rewrite move, and each chunk is empty or the lexemes of a single tape token. -/
+is one chunk per rewrite move, and each chunk is empty or the lexemes of a single scalar / id / rgb tape token. -/
 theorem C03_no_scalar_dropped (opt : Bool) (data : Bytes) (T : Tape) (h : parse opt data = .ok T)
     (L : List Lx) (hL : Lexes data L) :
-    ∃ odds : List (List Lx), Moves [] L (flat T) odds ∧ (∀ o ∈ odds, o = [] ∨ ∃ y : BTok, o = flatten y) ∧
+    ∃ odds : List (List Lx), Moves false [] L (flat T) odds ∧
+      (∀ o ∈ odds, o = [] ∨ ∃ y : BTok, o = flatten y ∧ y.isVal = true) ∧
       (L.filter Lx.isTok).Perm ((flat T).filter Lx.isTok ++ odds.flatten.filter Lx.isTok) := by
   obtain ⟨odds, hm⟩ := parse_moves opt data T h L hL
   exact ⟨odds, hm, hm.odds_shape, by simpa using hm.toks_perm⟩
 
+/-- **A container in value position is never dropped** (consequence of the `owed` flag): if the tape of an
+accepted input shows neither `{` nor `=`, the input has no `= {`. -/
+theorem C03_value_container_kept (opt : Bool) (data : Bytes) (T : Tape) (h : parse opt data = .ok T)
+    (L : List Lx) (hL : Lexes data L) (hO : Lx.open_ ∉ flat T) (hE : Lx.equal ∉ flat T) :
+    ∀ L' L'', L ≠ L' ++ Lx.equal :: Lx.open_ :: L'' := by
+  obtain ⟨odds, hm⟩ := parse_moves opt data T h L hL
+  exact hm.eq_open_kept hO hE
+
+/-- hypotheses satisfiable: `a = b` -/
+example : parse true [0x11, 0x11, 1, 0, 0x22, 0x22] = .ok [.token 0x1111, .token 0x2222] ∧
+    Lexes [0x11, 0x11, 1, 0, 0x22, 0x22] [.tok (.token 0x1111), .equal, .tok (.token 0x2222)] ∧
+    Lx.open_ ∉ flat [.token 0x1111, .token 0x2222] ∧ Lx.equal ∉ flat [.token 0x1111, .token 0x2222] := by
+  refine ⟨rfl, ?_, by decide, by decide⟩
+  exact Lexes.cons (by rfl) (Lexes.cons (by rfl) (Lexes.cons (by rfl) (Lexes.done (by decide))))
+
 /-- NON-instance: input `a = b` with tape content `[a]` (the scalar `b` silently dropped) is not explained by
 any run of moves; the honest content `[a, b]` is -/
 example :
-    (¬ ∃ odds, Moves [] [.tok (.token 1), .equal, .tok (.token 2)] [.tok (.token 1)] odds) ∧
-    Moves [] [.tok (.token 1), .equal, .tok (.token 2)] [.tok (.token 1), .tok (.token 2)] [] := by
+    (¬ ∃ odds, Moves false [] [.tok (.token 1), .equal, .tok (.token 2)] [.tok (.token 1)] odds) ∧
+    Moves false [] [.tok (.token 1), .equal, .tok (.token 2)] [.tok (.token 1), .tok (.token 2)] [] := by
   constructor
   · rintro ⟨odds, h⟩
     have h0 := h.no_open (by simp) (by simp)
@@ -227,8 +254,70 @@ example :
     rw [h0.1] at hp
     have := hp.length_eq
     simp [List.filter, Lx.isTok] at this
-  · exact Moves.step (Move.keep [] [.tok (.token 1)]) (Moves.step (Move.eqAfterKey [] (.token 1))
-      (Moves.step (Move.keep _ [.tok (.token 2)]) (Moves.nil _)))
+  · exact Moves.step (Move.keep false [] [.tok (.token 1)] (by simp)) (Moves.step (Move.eqAfterKey [] (.token 1) rfl)
+      (Moves.step (Move.keep true _ [.tok (.token 2)] (by simp)) (Moves.nil _ _)))
+
+/-- NON-instance (reviewer's A): `a = {} b = c` with content `[a, b, c]` — an empty container in VALUE position
+dropped as if it were a ghost: refuted, while a value is owed only `keep` is possible -/
+example : ¬ ∃ odds, Moves false [] [.tok (.token 1), .equal, .open_, .close, .tok (.token 2), .equal, .tok (.token 3)]
+    [.tok (.token 1), .tok (.token 2), .tok (.token 3)] odds := by
+  rintro ⟨odds, h⟩
+  exact h.eq_open_kept (by simp) (by simp) [.tok (.token 1)] [.close, .tok (.token 2), .equal, .tok (.token 3)] rfl
+
+/-- NON-instance (reviewer's B): `a = { {} } = b` with content `[a, {, }, b]` (a rewrite whose `last` would be the
+`End` token): refuted, `last` must be a key token -/
+example : ¬ ∃ odds, Moves false [] [.tok (.token 1), .equal, .open_, .open_, .close, .close, .equal, .tok (.token 2)]
+    [.tok (.token 1), .open_, .close, .tok (.token 2)] odds := by
+  rintro ⟨odds, h⟩
+  rcases h.last_equal [.tok (.token 1), .equal, .open_, .open_, .close, .close] [.tok (.token 2)] rfl (by simp) (by simp)
+    with h1 | ⟨C', k, _, h1⟩
+  · simp at h1
+  · have : C' ++ [Lx.tok k] ++ [.tok (.token 2)] = [.tok (.token 1), .open_] ++ [.close] ++ [.tok (.token 2)] := by
+      simpa using h1.symm
+    have h2 := List.append_inj_left' this rfl
+    have h3 := List.append_inj_right' h2 rfl
+    simp at h3
+
+/-- NON-instance (reviewer's C): `{ {} = b }` with content `[{, b, }]` (a rewrite whose `last` would be the
+`MixedContainer` marker, which has no content): refuted -/
+example : ¬ ∃ odds, Moves false [] [.open_, .open_, .close, .equal, .tok (.token 2), .close]
+    [.open_, .tok (.token 2), .close] odds := by
+  rintro ⟨odds, h⟩
+  rcases h.last_equal [.open_, .open_, .close] [.tok (.token 2), .close] rfl (by simp) (by simp)
+    with h1 | ⟨C', k, _, h1⟩
+  · simp at h1
+  · have : C' ++ [Lx.tok k] ++ [.tok (.token 2), .close] = [] ++ [.open_] ++ [.tok (.token 2), .close] := by
+      simpa using h1.symm
+    have h2 := List.append_inj_left' this rfl
+    have h3 := List.append_inj_right' h2 rfl
+    simp at h3
+
+/-- NON-instance (reviewer's D): `{ {} = a = b }` with content `[{, a, b, }]` (two `=` dropped by one rewrite, `odd`
+being an `Equal` token): refuted, `odd` is never an `=` and the first `=` has no key before it -/
+example : ¬ ∃ odds, Moves false [] [.open_, .open_, .close, .equal, .tok (.token 1), .equal, .tok (.token 2), .close]
+    [.open_, .tok (.token 1), .tok (.token 2), .close] odds := by
+  rintro ⟨odds, h⟩
+  have := h.first_equal (by simp) [.open_, .open_, .close] [.tok (.token 1), .equal, .tok (.token 2), .close] rfl
+    (by simp [Lx.isTok]) (by simp)
+  simp at this
+
+/-- **An `=` that is recorded stays recorded** (`Moves.equal_kept`: not even the only_empties rewrite removes
+one), and an `=` can be dropped only behind a key: for an accepted input whose tape shows no `=`, the first `=`
+of the input has a scalar / id lexeme before it. -/
+theorem C03_equal_only_behind_key (opt : Bool) (data : Bytes) (T : Tape) (h : parse opt data = .ok T)
+    (L : List Lx) (hL : Lexes data L) (hE : Lx.equal ∉ flat T) :
+    ∀ L' R, L = L' ++ Lx.equal :: R → Lx.equal ∉ L' → ∃ x ∈ L', Lx.isTok x = true := by
+  obtain ⟨odds, hm⟩ := parse_moves opt data T h L hL
+  intro L' R he hn
+  refine Classical.byContradiction fun hc => hE ?_
+  refine hm.first_equal (by simp) L' R he (fun x hx => ?_) hn
+  cases hx' : Lx.isTok x with
+  | false => rfl
+  | true => exact absurd ⟨x, hx, hx'⟩ hc
+
+/-- hypotheses satisfiable: `a = b` -/
+example : parse true [0x11, 0x11, 1, 0, 0x22, 0x22] = .ok [.token 0x1111, .token 0x2222] ∧
+    Lx.equal ∉ flat [.token 0x1111, .token 0x2222] := ⟨rfl, by decide⟩
 
 /-- (weak form, kept for reference: an interleaving with cause TAGS.  GAP: the tags carry no context and
 `oddToken` admits any lexeme any number of times, so this statement alone follows from
